@@ -1,0 +1,7 @@
+//go:build !verif
+
+package client
+
+// verif hook H5 (off): the order in which secondaries are learned from a shards
+// document is Go's map iteration order.
+func simOrder(secondaries []string) []string { return secondaries }
